@@ -627,7 +627,18 @@ def _is_all_settled(comp, u, g, pol) -> bool:
     t = g if pol else mk_not(g)
     if t[0] == "not" and t[1][0] == "call" and t[1][1] in (("mod", "numpy.isnan"), ("mod", "math.isnan")):
         return True  # `if isnan(w): continue`: restricts nothing (a NaN never wins a comparison)
+    if comp.policy == "min" and t[0] == "cmp" and t[1] == "<=" and t[2] == ("const", 0) and t[3] in _weight_candidates(comp, u):
+        return True  # `if w < 0: continue`: restricts nothing on non-negative dissimilarities (rules_ift.classify_guard)
     return classify_guard(comp, u, g, pol, None).endswith("(all settled)")
+
+
+def _weight_candidates(comp, u):
+    """The arc-weight term(s) of an update site: the operand of max(cost[p], w)."""
+    v = u.value
+    if v[0] == "max" and len(v[1]) == 2:
+        hp = comp.hcost(comp.p)
+        return [x for x in v[1] if x != hp]
+    return [v]
 
 
 def resolve_on(t: Term, key: Term, value) -> Optional[Term]:
